@@ -13,6 +13,9 @@ import random
 from . import dense as dn
 from . import walk
 
+RULE_SUFFIX = (' Plus HISTORY WALKS (ttmon/hist.py): the operations of this property executed inside random call histories over a pool of objects (views, copies, results of earlier calls; '
+               'in-place set_core / reduce_dims / raw core writes in between) and compared with a dense model of the operands as they are at the call.')
+
 OWN = {
     'C02': ['round'],
     'C03': ['add', 'sub', 'mul', 'bcast', 'scalar', 'neg', 'pos', 'kron', 'full'],
@@ -21,6 +24,7 @@ OWN = {
     'C08': ['getitem', 'getitem_bare', 'apply_mask'],
     'C09': ['cat', 'pad', 'diag', 'mprod', 'convert'],
     'C10': ['reshape', 'permute'],
+    'C11': ['fast_matvec', 'dmrg_hadamard', 'amen_mv', 'amen_mm'],
 }
 INPLACE = ['set_core', 'reduce_dims', 'scribble', 'core_write', 'core_write']
 FILLER = ['add', 'sub', 'mul', 'scalar', 'neg', 'matmul', 'kron', 'round', 'getitem', 'getitem_ttm', 'sum', 'reshape', 'permute', 'cat', 'pad', 'diag', 'mprod', 'convert', 'factory', 'TT(dense)',
@@ -37,7 +41,7 @@ def cases(prop, tier, seed):
 def run(prop, case, ctx):
     dt = dn.dtype_of(case['dtype'])
     own = OWN[prop]
-    w = walk.Walker(ctx, case['seed'], dt, views=case.get('views', False), judge=own)
+    w = walk.Walker(ctx, case['seed'], dt, views=case.get('views', False), judge=own, nswp=None if prop == 'C11' else 3)
     for _ in range(2):
         w.admit(w.fresh(w.small_shape()))
         n3 = w.small_shape(3)
